@@ -7,7 +7,13 @@ import GdVerif.Spec.Gs3
   semantically broken states, tagged NOTWF by the SPEC's own `wfX`).  Two cases in three carry field
   sections the client has no place for (`Spec.Extra`: `kills_`, `time_on_`, `clan_`, `honor_t` … at
   random positions of the layout, values with underscores and values that are typed field names);
-  the tag `THM` says whether the case lies inside the domain of `C04_gs3_query_extra` (`wfX`).
+  one case in two is a reply whose packets END INSIDE VALUE LISTS (`Spec.ConfigC`, built with
+  `Spec.cutLayout` from whole sections and cut points: after the first value, in the middle, before the
+  last, several cuts in one section, typed player / team sections and extra sections alike; the next
+  packet continues the field under its id with the offset of its first value; now and then the last
+  packet of the reply also ends without closing its list);
+  the tag `THM` says whether the case lies inside the domain of `C04_gs3_query_cut` (`wfC`), `NCUT` how
+  many packets end inside a value list, `CONT` whether every such packet is continued (`Spec.continued`).
 -/
 namespace Gd.Run
 open Gd Gd.Gs3 Gd.Gs3.Spec
@@ -128,6 +134,55 @@ def mapSlices (f : Slice → Slice) (cfg : ConfigX) : ConfigX :=
       | .slice sl => .slice (f sl)
       | .extra e => .extra e }
 
+/-! packets that end inside a value list -/
+
+/-- cut points for a section of `n` values: after the first, in the middle, before the last, the first
+and the last, three of them, after every one of the first six -/
+def gCutPoints (n : Nat) : G (List Nat) := do
+  let style ← G.below 6
+  let raw : List Nat := match style with
+    | 0 => [1]
+    | 1 => [n / 2]
+    | 2 => [n - 1]
+    | 3 => [1, n - 1]
+    | 4 => [1, n / 2, n - 1]
+    | _ => (List.range (min n 7)).drop 1
+  pure ((raw.filter fun c => 0 < c && c < n).eraseDups)
+
+/-- keep at most `budget` cut points in all (every cut point is one more packet) -/
+def limitCuts : Nat → List (List CutSection) → List (List CutSection)
+  | _, [] => []
+  | budget, run :: r =>
+    let rec go (budget : Nat) : List CutSection → List CutSection × Nat
+      | [] => ([], budget)
+      | cs :: rest =>
+        let keep := cs.cuts.take budget
+        let (rest', left) := go (budget - keep.length) rest
+        (⟨cs.sec, keep⟩ :: rest', left)
+    let (run', left) := go budget run
+    run' :: limitCuts left r
+
+/-- the packets of `gPack` as runs of whole sections; when `cutting`, one section in three gets cut points -/
+def gCutRuns (cutting : Bool) (layout : List (List Section)) : G (List (List CutSection)) := do
+  let runs ← layout.mapM fun ss => ss.mapM fun s => do
+    let c ← G.chance 1 3
+    let cuts ← gCutPoints (sectionCount s)
+    pure (⟨s, if cutting && c then cuts else []⟩ : CutSection)
+  pure (limitCuts 12 runs)
+
+/-- the sections after whose last value a packet of the reply ends -/
+def openSections (cfg : ConfigC) : List Section :=
+  ((List.range cfg.layout.length).zip cfg.layout).filterMap fun (i, ss) =>
+    if cfg.cut.getD i false then ss.getLast? else none
+
+/-- how many of them are player sections, team sections, extra sections -/
+def openKinds (cfg : ConfigC) : String :=
+  let os := openSections cfg
+  let np := (os.filter fun | .slice sl => !sl.team | _ => false).length
+  let nt := (os.filter fun | .slice sl => sl.team | _ => false).length
+  let nx := (os.filter fun | .extra _ => true | _ => false).length
+  s!"{np},{nt},{nx}"
+
 def gChallengeInt : G Int := do
   let c ← G.below 10
   match c with
@@ -140,7 +195,7 @@ def gChallengeInt : G Int := do
   | _ => G.int 32
 
 /-- semantic damage: states outside the specification's domain (tagged NOTWF) -/
-def gDamage (cfg : ConfigX) (st : State) : G (ConfigX × State) := do
+def gDamageX (cfg : ConfigX) (st : State) : G (ConfigX × State) := do
   let c ← G.below 14
   match c with
   | 0 => pure (cfg, { st with vars := st.vars.drop 1 })
@@ -170,7 +225,12 @@ def gDamage (cfg : ConfigX) (st : State) : G (ConfigX × State) := do
       | s => s }, st)
   | _ => pure ({ cfg with layout := cfg.layout ++ [[]] }, st)
 
-def gGs3Case : G (ConfigX × State) := do
+/-- the damage is done to the sections; which packets end inside a value list stays -/
+def gDamage (cfg : ConfigC) (st : State) : G (ConfigC × State) := do
+  let (x, st') ← gDamageX cfg.closed st
+  pure (⟨x.challenge, x.layout, x.unknown, cfg.cut⟩, st')
+
+def gGs3Case : G (ConfigC × State) := do
   -- 255 / 256 rows: the largest tables a one-byte row offset can address (sections then end at row 255)
   let np ← G.oneOf [0, 1, 1, 2, 3, 5, 5, 12, 12, 33, 64, 64, 255, 256]
   let nt ← G.oneOf [0, 0, 1, 2, 3, 8]
@@ -191,8 +251,15 @@ def gGs3Case : G (ConfigX × State) := do
   let nx ← G.oneOf [0, 0, 1, 1, 2, 3, 6]
   let sections ← gInsertExtras np nx (slices.map .slice)
   let layout ← gPack st (encVars vars).length sections
-  let unknown ← G.listOf layout.length (G.oneOf [0, 0, 1, 2, 0xFF, 0x41])
-  let cfg : ConfigX := ⟨← gChallengeInt, layout, unknown⟩
+  let cutting ← G.bool
+  let runs ← gCutRuns cutting layout
+  let challenge ← gChallengeInt
+  let cut := cutLayout challenge runs []
+  let unknown ← G.listOf cut.layout.length (G.oneOf [0, 0, 1, 2, 0xFF, 0x41])
+  -- now and then the last packet, too, ends without closing its value list (nothing continues it)
+  let openEnd ← G.chance 1 12
+  let flags := if cutting && openEnd then cut.cut.take (cut.cut.length - 1) ++ [true] else cut.cut
+  let cfg : ConfigC := ⟨challenge, cut.layout, unknown, flags⟩
   let damage ← G.chance 1 10
   if damage then gDamage cfg st else pure (cfg, st)
 
@@ -204,16 +271,20 @@ def genGs3 (seed n : Nat) : List String :=
     let retries := k % 3
     let vars := k % 4 == 3
     let entry := if vars then "gs3vars" else "gs3"
-    let line := s!"g{seed}_{k} {entry} {port} {retries} {showScript (Spec.scriptX cfg st)}"
-    let inDomain := Spec.wfX cfg st
+    let line := s!"g{seed}_{k} {entry} {port} {retries} {showScript (Spec.scriptC cfg st)}"
+    let inDomain := Spec.wfC cfg st
     let wf := if inDomain then "" else " NOTWF"
     let want := if vars then showRes showMap (.ok (Spec.expectedVars st)) else showRes showGs3Response (.ok (Spec.expected st))
     line ++ " ## WANT " ++ want ++ wf
-      ++ " ## SENT " ++ String.intercalate "," ((Spec.requestsX cfg).map hexOf)
-      ++ " ## SEG " ++ toString (Spec.scriptX cfg st).length
-      ++ " ## NPK " ++ toString (Spec.dataPacketsX cfg st).length
-      -- extra sections carried, and whether the case is inside the domain of `C04_gs3_query_extra` (`wfX`)
+      ++ " ## SENT " ++ String.intercalate "," ((Spec.requestsC cfg).map hexOf)
+      ++ " ## SEG " ++ toString (Spec.scriptC cfg st).length
+      ++ " ## NPK " ++ toString (Spec.dataPacketsC cfg st).length
+      -- extra sections carried, packets that end inside a value list (and whether each is continued by the next
+      -- packet), and whether the case is inside the domain of `C04_gs3_query_cut` (`wfC`)
       ++ " ## NX " ++ toString (Spec.extrasOf cfg.layout.flatten).length
+      ++ " ## NCUT " ++ toString (openSections cfg).length
+      ++ " ## CUTK " ++ openKinds cfg
+      ++ " ## CONT " ++ (if Spec.continued cfg then "1" else "0")
       ++ " ## THM " ++ (if inDomain then "1" else "0")
 
 end Gd.Run
